@@ -15,7 +15,8 @@ CxLeaves == 41..52
 PolyOps == {"Polyval", "PolyMul", "PolyGrad", "PolyDegree", "PolyNCoeffs", "Legendre"}
 SearchOps == {"SearchSorted", "ArgSort", "UniqueMask", "UniqueInverse", "SizesToOffsets", "CompressIndices", "Find"}
 DynOps == {"RangeN", "InsertAxisN"}
-FullOps == AllOps \cup CxOps \cup {"Einsum"} \cup PolyOps \cup SearchOps \cup DynOps
+ArgLoopOps == {"LoopIndexN", "LoopSumN"}
+FullOps == AllOps \cup CxOps \cup {"Einsum"} \cup PolyOps \cup SearchOps \cup DynOps \cup ArgLoopOps \cup {"Monomial"}
 FullLeaves == 1..Len(LeafPool)
 CoreLeaves == {1, 2, 7, 8, 9, 10, 12, 13, 14, 15, 20, 22, 25}
 Fam(ops, leaves, maxnodes, maxops, maxleaves) == [ops |-> ops, leaves |-> leaves, maxnodes |-> maxnodes, maxops |-> maxops, maxleaves |-> maxleaves]
